@@ -102,12 +102,27 @@ def gen_case(r):
     overrides = []
     for _ in range(r.choice([0, 0, 1, 2, 3])):
         overrides.append(gen_override(r, files))
+    # a mapping reachable under two keys of one file (YAML anchor + alias, as in the user guide)
+    share = []
+    if r.random() < 0.25:
+        i = r.randrange(len(files))
+        cands = [k for k, v in files[i].items() if isinstance(v, dict) and v and k not in ("services", "component")]
+        if cands:
+            # --set writes into the loaded mapping in place, and a YAML alias IS the same mapping: an override
+            # that passes through an aliased mapping is outside what the tree model can say
+            touched = {re.split(r"(?<!\\)\.", o.get("key") or "")[0].replace("\\.", ".") for o in overrides}
+            cands = [k for k in cands if k not in touched and ("also_" + k) not in touched]
+        if cands:
+            src = r.choice(cands)
+            dst = "also_" + src
+            files[i][dst] = copy.deepcopy(files[i][src])
+            share.append([i, src, dst])
     k = r.random()
     flag = None if k < 0.45 else (r.choice(names) if names and k < 0.85 else r.choice(SERVICE_NAMES + ["nope", ""]))
     k = r.random()
     env = None if k < 0.55 else (r.choice(names) if names and k < 0.85 else r.choice(SERVICE_NAMES + ["nope", ""]))
     return {"files": files, "overrides": overrides, "flag": flag, "env": env,
-            "flag_opt": r.choice(["-s", "--service"]), "layout": layout}
+            "flag_opt": r.choice(["-s", "--service"]), "layout": layout, "share": share}
 
 
 def paths_of(d, prefix=()):
@@ -265,7 +280,10 @@ def impl_payload(case):
         args += ["--set", o["raw"] if "raw" in o else f"{o['key']}={o['text']}"]
     if case["flag"] is not None:
         args += [case["flag_opt"], case["flag"]]
-    return {"files": [yaml.safe_dump(f, sort_keys=False) for f in case["files"]], "args": args, "env": case["env"]}
+    files = copy.deepcopy(case["files"])
+    for i, src, dst in case.get("share", []):
+        files[i][dst] = files[i][src]          # one mapping under two keys: PyYAML writes an anchor and an alias
+    return {"files": [yaml.safe_dump(f, sort_keys=False) for f in files], "args": args, "env": case["env"]}
 
 
 def run_cases(ck, cases):
